@@ -16,6 +16,7 @@ _Bool __modeb_fresh(void **pp, unsigned long n) { *pp = __CPROVER_allocate(n, 0)
 #define PTR_EQ(a, b) __CPROVER_pointer_equals((a), (b))
 #define SET_EQ(a, b) ((a) == (b))
 #define IS_FRESH(p, n) __CPROVER_is_fresh((p), (n))
+#define INPUT_STATE(...) 1   /* dfcc havocs all statics itself */
 #define RET __CPROVER_return_value
 #endif
 
